@@ -323,7 +323,8 @@ def execute(root, cfg, scripts):
             w.write('build.bfg', text)
             if i == 0:
                 r = R.run_bfg(w, ['configure', w.build, '--backend=msbuild',
-                                  '--no-resolve-packages'], env=env,
+                                  '--no-resolve-packages', '--prefix=' +
+                                  os.path.join(w.root, 'prefix')], env=env,
                               cwd=w.src)
             else:
                 r = R.run_bfg(w, ['regenerate', w.build], env=env, cwd=w.src)
